@@ -164,6 +164,28 @@ def gen_case(rng, stream: str) -> dict:
             pm = rng.sample(sorted(target), rng.randint(0, len(target)))
         case["call2"] = {"drop": sorted(drop), "target": t2, "force": rng.random() < 0.05, "prompt": pm,
                          "relink": rng.random() < 0.3, "fresh_odb": rng.random() < 0.5}
+    if stream == "rehistory":
+        # call 1: forced checkout of a nested target; the user deletes a sub-directory tree / everything / one
+        # file; call 2: forced checkout of the same or another nested target on the same workspace path
+        case["force"] = True
+        case["prompt"] = "none"
+        case["second"] = "plain"
+        nested = [q for q in PATH_POOL if "/" in q]
+        for q in rng.sample(nested, rng.randint(1, 2)):
+            target.setdefault(q, rng.choice(cached_pool))
+        case["cache"] = sorted(set(case["cache"]) | set(target.values()))
+        if rng.random() < 0.75:
+            case["types"] = [rng.choice(["hardlink", "symlink", "hardlink", "symlink", "copy"])]
+        if rng.random() < 0.5:
+            t2 = dict(target)
+        else:
+            t2 = {p: (target[p] if rng.random() < 0.5 else rng.choice(cached_pool)) for p in target if rng.random() < 0.85}
+            q = rng.choice(nested)
+            t2.setdefault(q, rng.choice(cached_pool))
+        case["cache"] = sorted(set(case["cache"]) | set(t2.values()))
+        ev = rng.choice(["rm_subdirs", "rm_subdirs", "rm_all", "rm_file:" + rng.choice(sorted(target))])
+        case["call2"] = {"drop": [], "target": t2, "force": True, "prompt": "none", "relink": rng.random() < 0.4,
+                         "fresh_odb": rng.random() < 0.5, "user": ev}
     return normalise(case)
 
 
@@ -555,6 +577,21 @@ def run_case(ctx, case):
             if os.path.lexists(op):
                 os.chmod(op, 0o644)
                 os.unlink(op)
+        ev = hist.get("user")
+        if ev and os.path.isdir(ws):
+            # the user deletes part of the workspace between the calls (same process, same workspace path)
+            import shutil
+            if ev == "rm_all":
+                victims = [os.path.join(ws, n) for n in os.listdir(ws)]
+            elif ev == "rm_subdirs":
+                victims = [os.path.join(ws, n) for n in os.listdir(ws) if os.path.isdir(os.path.join(ws, n)) and not os.path.islink(os.path.join(ws, n))]
+            else:                                        # "rm_file:<rel>"
+                victims = [os.path.join(ws, *ev.split(":", 1)[1].split("/"))]
+            for v in victims:
+                if os.path.isdir(v) and not os.path.islink(v):
+                    shutil.rmtree(v)
+                elif os.path.lexists(v):
+                    os.unlink(v)
         case2 = dict(case, force=hist["force"], prompt=hist["prompt"], target=hist["target"])
         relink2 = hist["relink"]
         if hist.get("fresh_odb"):
@@ -655,6 +692,20 @@ def run_case(ctx, case):
                     if not ok:
                         res["c10"].append((f"C10:wrong-link-type:{kind}-under-{'+'.join(links)}" + tagq,
                                            f"relinking checkout left '{rel}' as {kind}; usable configured types {links}"))
+    # a forced second call of a history is C10_converges applied to the workspace as it is before that call
+    if hist and case2["force"]:
+        tgt2 = {rel: contents[cid] for rel, cid in case2["target"].items()}
+        dangling2 = any(e["broken"] for e in ws1b.values())
+        if all(md5hex(b) in c1b for b in tgt2.values()) and links:
+            t2 = ":old-tree-build-failed" if dangling2 else ""
+            if out2[0] not in ("none", "ret"):
+                res["c10"].append(("C10:forced-checkout-failed" + t2, f"call 2 of a history on one workspace path "
+                                   f"(after the user event {hist.get('user')}): forced checkout of a cached target raised {out2}"))
+            else:
+                got2 = {rel: e["bytes"] for rel, e in ws2.items()}
+                if got2 != tgt2:
+                    res["c10"].append(("C10:not-converged" + t2, f"call 2 of a history (after {hist.get('user')}): workspace differs "
+                                       f"from the target: {sorted(set(got2) ^ set(tgt2)) or [r for r in got2 if got2[r] != tgt2[r]]}"))
     # link record: whenever a record was saved by a call that completed, it matches the workspace
     if case["state"] and rec1 is not None and out1[0] in ("none", "ret"):
         row = links1.get(os.path.relpath(ws, root)) if links1 else None
